@@ -5,8 +5,11 @@
 # usage: tools/seedtest.sh <patch.diff|none> <Cxx> [Cxx …]      (env: TIER=quick|thorough, SLOT=name)
 set -e
 PATCH="$1"; shift
-SLOT="${SLOT:-a}"
+SLOT="${SLOT:-p$$}"          # default: a private slot per invocation (named slots keep their build cache)
 BASE=/tmp/seed-run/$SLOT
+mkdir -p $BASE
+exec 8>$BASE/.slotlock
+flock 8                       # one run per slot at a time
 WT=$BASE/repo
 V=$BASE/verif
 mkdir -p $BASE/target $BASE/target-bins
